@@ -723,7 +723,8 @@ pub fn diagnostic_display_input<W: std::fmt::Write>(w: &mut W, input: &Inp) -> R
         Inp::Star => write!(w, r#"*"#)?,
         Inp::Command { cmd, .. } => write!(w, r#"{{{{{{ {cmd} }}}}}}"#)?,
         Inp::Compadd { cmd, .. } => write!(w, r#"{{{{{{ {cmd} }}}}}}compadd"#)?,
-        Inp::Subword { .. } => unreachable!(),
+        // Reachable from error messages whose path leads through a word matched by a sub-DFA
+        Inp::Subword { .. } => write!(w, r#"<...>"#)?,
     }
     Ok(())
 }
